@@ -17,7 +17,7 @@ from . import tlc
 from .common import VERIF, MachineryError, scratch, seed
 
 def spec_to_code(report, module, cfg_text, replayer, opts=(), *, workers_tlc=12, workers_replay=6,
-                 timeout=3000, owners=None, heap="6g"):
+                 timeout=3000, owners=None, heap="6g", simulate=None):
     """returns the TlcResult; findings are filed into the report.
     owners: property ids whose clauses are verdicts of this check (others are notes).
     Replay workers are separate interpreters started with subprocess (no fork of
@@ -55,8 +55,15 @@ def spec_to_code(report, module, cfg_text, replayer, opts=(), *, workers_tlc=12,
         p.stdin.write(line)
 
     try:
-        res = tlc.run(module, None, cfg_text=cfg_text, workers=workers_tlc, on_emit=on_emit,
-                      timeout=timeout, heap=heap)
+        if simulate:
+            # random genuine behaviours of the specification (no state merging: every emitted
+            # prefix is the path actually walked), one emitted line per step
+            res = tlc.run(module, None, cfg_text=cfg_text, workers=workers_tlc, on_emit=on_emit,
+                          timeout=timeout, heap=heap, simulate=max(1, simulate["num"] // workers_tlc),
+                          depth=simulate["depth"], seed=seed() + 1)
+        else:
+            res = tlc.run(module, None, cfg_text=cfg_text, workers=workers_tlc, on_emit=on_emit,
+                          timeout=timeout, heap=heap)
     finally:
         for p in procs:
             try:
@@ -77,8 +84,12 @@ def spec_to_code(report, module, cfg_text, replayer, opts=(), *, workers_tlc=12,
                        "expected_final_state_keys": sorted(sample["st"].keys())}, cap=2)
     for owner, clause, detail, obj in agg["findings"]:
         file_finding(report, owner, clause, detail, obj, owners)
-    report.add("states", res.distinct)
-    report.add("transitions", res.generated)
+    if simulate:
+        report.add("simulated_behaviours", res.traces)
+        report.add("simulated_steps_replayed", agg["total"])
+    else:
+        report.add("states", res.distinct)
+        report.add("transitions", res.generated)
     report.add("behaviours_replayed", agg["total"])
     report.add("real_calls_in_state_tables", sum(c for a, c in agg["tags"].items()
                                                    if a.startswith("calls:") and a.count(":") == 1))
